@@ -41,7 +41,8 @@ try:
         obl = sorted(set(re.findall(r'^  obligation (\S+?)(?=: | \()', r.stdout, re.M)))
         return p, dict(rc=r.returncode, obligations=obl, summary=r.stdout.strip().split('\n')[-1])
     with cf.ThreadPoolExecutor(max_workers=4) as ex:
-        for p, v in ex.map(one, sorted(meta.CLAIMED)):
+        props = os.environ.get('KEEP_PROPS', '').split() or sorted(meta.CLAIMED)
+        for p, v in ex.map(one, props):
             results[p] = v
             print(p, v['rc'], v['obligations'], flush=True)
 finally:
@@ -63,7 +64,8 @@ meta_json = dict(
     checks=dict(caught_by=caught, undecided=undec, target_check_catches=target in caught,
                 obligations={p: v['obligations'] for p, v in results.items() if v['rc'] == 1},
                 how=('patch applied to an rsync copy of /repo, ./check Cxx with VERIF_REPO=<copy> for every claimed property' if SCRATCH else
-                     'git -C /repo apply patch.diff; ./check Cxx for every claimed property; git -C /repo checkout -- .')),
+                     'git -C /repo apply patch.diff; ./check Cxx for every claimed property; git -C /repo checkout -- .'),
+                checked_properties=sorted(results)),
 )
 json.dump(meta_json, open(os.path.join(dst, 'meta.json'), 'w'), indent=1)
 print('CAUGHT BY', caught, 'UNDECIDED', undec)
